@@ -731,8 +731,94 @@ TEST_CALLS = {'isinstance', 'issubclass', 'hasattr', 'callable', 'bool', 'any', 
 TEST_METHODS = {'startswith', 'endswith', 'isdigit', 'exists', 'lexists', 'isfile', 'isdir', 'islink', 'isabs'}
 
 
+def _display_elts(e: ast.AST, allow_seq: bool = False) -> T.Optional[T.List[ast.expr]]:
+    """Elements of a small set display of pure elements: `{a.b, '*'}`, `frozenset({..})`, `set([..])` (a list/tuple where a
+    method accepts any iterable)."""
+    if isinstance(e, ast.Call) and isinstance(e.func, ast.Name) and e.func.id in ('set', 'frozenset') and len(e.args) == 1 and not e.keywords:
+        return _display_elts(e.args[0], True)
+    if isinstance(e, ast.Set) or (allow_seq and isinstance(e, (ast.List, ast.Tuple))):
+        if 0 < len(e.elts) <= 4 and all(isinstance(x, ast.Constant) or attr_chain(x) is not None for x in e.elts):
+            return list(e.elts)
+    return None
+
+
+def _membership_form(e: ast.AST, truth: bool) -> T.Optional[ast.expr]:
+    """N20  set algebra between a collection X (a name / attribute chain) and a small display D of pure elements, read as membership:
+        X & D, D & X, X.intersection(D), D.intersection(X)     (only where the truth value is taken)  ->  e1 in X or e2 in X
+        X.isdisjoint(D), D.isdisjoint(X)                                                              ->  not (e1 in X or e2 in X)
+        D <= X, X >= D, D.issubset(X), X.issuperset(D)                                               ->  e1 in X and e2 in X
+        any(v in X for v in D), all(v in X for v in D)                                                ->  or / and of the memberships"""
+    def build(x: ast.AST, elts: T.List[ast.expr], conj: bool, neg: bool = False) -> ast.expr:
+        parts: T.List[ast.expr] = [ast.Compare(left=_copy.deepcopy(el), ops=[ast.In()], comparators=[_copy.deepcopy(x)]) for el in elts]   # type: ignore[list-item]
+        out: ast.expr = parts[0] if len(parts) == 1 else ast.BoolOp(op=ast.And() if conj else ast.Or(), values=parts)
+        return ast.UnaryOp(op=ast.Not(), operand=out) if neg else out
+
+    def pair(a: ast.AST, b: ast.AST, seq_b: bool = False) -> T.Optional[T.Tuple[ast.AST, T.List[ast.expr]]]:
+        """(X, elements of D) when one of a/b is a collection chain and the other a display."""
+        db = _display_elts(b, seq_b)
+        if attr_chain(a) is not None and db is not None:
+            return a, db
+        da = _display_elts(a)
+        if da is not None and attr_chain(b) is not None:
+            return b, da
+        return None
+    if isinstance(e, ast.BinOp) and isinstance(e.op, ast.BitAnd) and truth:
+        p = pair(e.left, e.right)
+        return build(p[0], p[1], False) if p else None
+    if isinstance(e, ast.Compare) and len(e.ops) == 1 and isinstance(e.ops[0], (ast.LtE, ast.GtE)):
+        sub, sup = (e.left, e.comparators[0]) if isinstance(e.ops[0], ast.LtE) else (e.comparators[0], e.left)
+        d = _display_elts(sub)
+        return build(sup, d, True) if d is not None and attr_chain(sup) is not None else None
+    if isinstance(e, ast.Call) and isinstance(e.func, ast.Attribute) and len(e.args) == 1 and not e.keywords:
+        recv, arg, meth = e.func.value, e.args[0], e.func.attr
+        if meth == 'intersection' and truth:
+            p = pair(recv, arg, True)
+            return build(p[0], p[1], False) if p else None
+        if meth == 'isdisjoint':
+            p = pair(recv, arg, True)
+            return build(p[0], p[1], False, neg=True) if p else None
+        if meth in ('issubset', 'issuperset'):
+            sub, sup = (recv, arg) if meth == 'issubset' else (arg, recv)
+            d = _display_elts(sub, sub is arg)
+            return build(sup, d, True) if d is not None and attr_chain(sup) is not None else None
+    if isinstance(e, ast.Call) and isinstance(e.func, ast.Name) and e.func.id in ('any', 'all') and len(e.args) == 1 and not e.keywords \
+            and isinstance(e.args[0], (ast.GeneratorExp, ast.ListComp)) and len(e.args[0].generators) == 1:
+        g = e.args[0].generators[0]
+        el = e.args[0].elt
+        d = _display_elts(g.iter, True)
+        if d is not None and not g.ifs and not g.is_async and isinstance(g.target, ast.Name) and isinstance(el, ast.Compare) and len(el.ops) == 1 \
+                and isinstance(el.ops[0], ast.In) and isinstance(el.left, ast.Name) and el.left.id == g.target.id and attr_chain(el.comparators[0]) is not None \
+                and g.target.id not in {n.id for n in ast.walk(el.comparators[0]) if isinstance(n, ast.Name)}:
+            return build(el.comparators[0], d, e.func.id == 'all')
+    return None
+
+
+def _setalg(n: ast.expr, truth: bool, hit: T.List[int]) -> ast.expr:
+    """Rewrite the N20 forms in `n`; `truth` says that only the truth value of `n` is observed."""
+    if isinstance(n, ast.BoolOp):
+        n.values = [_setalg(v, truth, hit) for v in n.values]
+        return n
+    if isinstance(n, ast.UnaryOp) and isinstance(n.op, ast.Not):
+        n.operand = _setalg(n.operand, True, hit)
+        return n
+    if isinstance(n, ast.IfExp):
+        n.test = _setalg(n.test, True, hit)
+        n.body, n.orelse = _setalg(n.body, truth, hit), _setalg(n.orelse, truth, hit)
+        return n
+    if isinstance(n, ast.Call) and isinstance(n.func, ast.Name) and n.func.id == 'bool' and len(n.args) == 1 and not n.keywords:
+        n.args[0] = _setalg(n.args[0], True, hit)
+        return n
+    new = _membership_form(n, truth)
+    if new is not None:
+        hit.append(1)
+        return ast.fix_missing_locations(ast.copy_location(new, n))
+    return n
+
+
 def _testlike(e: ast.AST) -> bool:
     """A pure boolean test: comparisons, and/or/not of tests, os.path probes, isinstance/startswith/... calls."""
+    if _membership_form(e, True) is not None:
+        return True
     if isinstance(e, ast.BoolOp):
         return all(_testlike(v) or attr_chain(v) is not None for v in e.values)
     if isinstance(e, ast.UnaryOp) and isinstance(e.op, ast.Not):
@@ -964,6 +1050,18 @@ def _normalise_function(fn: FuncNode) -> None:
                 c_.keywords = [_copy.deepcopy(k) for k in val.keywords if k.arg not in {k2.arg for k2 in c_.keywords}] + c_.keywords
                 ast.fix_missing_locations(c_)
             bst._c11_drop = True       # type: ignore[attr-defined]
+            changed = True
+        # N20  set algebra against a small display read as membership (see _membership_form)
+        hit20: T.List[int] = []
+        bool_fn = fn.returns is not None and norm(fn.returns) in ('bool', "'bool'")
+        for n in list(walk_no_nested(fn)):
+            if isinstance(n, (ast.If, ast.While, ast.IfExp, ast.Assert)):
+                n.test = _setalg(n.test, True, hit20)
+            elif isinstance(n, ast.Return) and n.value is not None:
+                n.value = _setalg(n.value, bool_fn, hit20)
+            elif isinstance(n, ast.Assign):
+                n.value = _setalg(n.value, False, hit20)
+        if hit20:
             changed = True
         # N8  `x in (c1, c2)` over a display of <= 4 constants  ->  x == c1 or x == c2   (`not in` -> and of !=)
         class _In(ast.NodeTransformer):
